@@ -7,6 +7,8 @@ import (
 	"fmt"
 	"os"
 	"sort"
+
+	"github.com/sheerbytes/sheerbytes/verifharness/internal/graph"
 )
 
 // Violation is a property violation observed on the real code.
@@ -81,4 +83,21 @@ func sortedKeys[V any](m map[string]V) []string {
 	}
 	sort.Strings(ks)
 	return ks
+}
+
+// loadRows reads the `x` payload of every emitted line as a T.
+func loadRows[T any](path string) ([]T, error) {
+	g, err := graph.Load(path)
+	if err != nil {
+		return nil, err
+	}
+	out := make([]T, 0, len(g.Edges))
+	for _, e := range g.Edges {
+		var t T
+		if err := json.Unmarshal(e.X, &t); err != nil {
+			return nil, err
+		}
+		out = append(out, t)
+	}
+	return out, nil
 }
